@@ -63,7 +63,9 @@ def marginals(mix, d):
             out.append(('integer', None) if j % 2 == 0 else ('dist', stats.norm(0, 1)))
         elif mix == 'offset':
             # large magnitude, small relative spread (epoch-timestamp like): relative range ~1e-6
-            out.append(('dist', stats.norm(1.7e9, 2000.0)) if j % 2 == 0 else ('dist', ROT[j % len(ROT)]))
+            # ... and, from the fourth column on, a tiny absolute scale (sd 3e-9 around 2.5e-8)
+            out.append(('dist', stats.norm(2.5e-8, 3e-9)) if j == 3 else
+                       ('dist', stats.norm(1.7e9, 2000.0)) if j % 2 == 0 else ('dist', ROT[j % len(ROT)]))
     return out
 
 
@@ -82,7 +84,8 @@ def gaussian_copula_table(spec, shift=None):
     it = 0
     for j in range(d):
         if j in consts:
-            cols.append(np.full(n, 0.1 if j % 2 else -3.3))      # non-dyadic constants (the mean of n copies need not be exact)
+            # non-dyadic constants (the mean of n copies need not be exact) and the falsy constant 0.0
+            cols.append(np.full(n, (0.1, -3.3, 0.0)[(j + d) % 3]))
             continue
         kind, dist = margs[it]
         u = U[:, it]
@@ -125,6 +128,16 @@ def table_zoo(tier):
                 out.append((d, 'mixed' if d > 2 else 'equi+', 'rotated', (pos,), ns[0] if d % 2 else ns[1], 'str'))
         if d >= 4:
             out.append((d, 'ar1', 'normal', (0, d - 1), ns[1], 'int'))
+    if tier != 'quick':
+        # thorough: the complete product correlation design x marginal mix for d = 2, 3, 4 (the quick tier pairs each design with
+        # one mix), with the column-name style and the row count rotating
+        seen = set(out)
+        for d in (2, 3, 4):
+            for i, design in enumerate(CORR_DESIGNS):
+                for j, mix in enumerate(MARG_MIXES):
+                    t = (d, design, mix, (), (30, 300)[(i + j) % 2], ('str', 'int', 'plain')[(d + i + j) % 3])
+                    if t not in seen and not any(u[:3] == t[:3] and u[3] == () for u in out):
+                        out.append(t)
     return out
 
 
@@ -181,6 +194,8 @@ def make_config(name, columns):
         return 'copulas.univariate.uniform.UniformUnivariate'
     if name == 'kde-instance':
         return U.GaussianKDE(bw_method=0.5)
+    if name == 'kde-wide-instance':
+        return U.GaussianKDE(bw_method=3.0)          # kernels far wider than the data: mass beyond the KDE's own bounds
     if name == 'truncated-class':
         return U.TruncatedGaussian
     if name == 'beta-class':
